@@ -15,6 +15,9 @@ MODE = {
 }
 BASE = {"lca", "base_spfs", "base_uspfs"}
 POLICY_ALGOS = [a for a in MODE if a != "lca"]
+# solvers whose ANY policy is modelled (Model/LabelDPAny.lean): the set of outputs reachable under ANY
+# over every offering order is `c05_reach` (C05_any_reach_*: it contains every ANY result)
+REACH_ALGOS = {"thl", "ext_spfs", "base_spfs", "superdtl", "base_uspfs"}
 
 
 def full_costs(case):
@@ -53,6 +56,7 @@ class Run:
         self.impl_all = self.impl_any = self.model = self.spec = None
         self.valid_all = self.valid_any = None
         self.spec_canon = None
+        self.reach = None
 
 
 def execute(ctx, items, want_any=True, want_spec=True):
@@ -68,6 +72,8 @@ def execute(ctx, items, want_any=True, want_spec=True):
         reqs.append({"op": "solve", "algo": algo, **lc})
         if want_spec:
             reqs.append({"op": "spec_opt", "mode": r.mode, "keep": True, "base": algo in BASE, **lc})
+        if r.impl_any is not None and algo in REACH_ALGOS:
+            reqs.append({"op": "c05_reach", "algo": algo, **lc})
         for tag, out in (("all", r.impl_all), ("any", r.impl_any)):
             if out and "sols" in out:
                 for s in out["sols"]:
@@ -78,6 +84,8 @@ def execute(ctx, items, want_any=True, want_spec=True):
         r.model = next(outs)
         if want_spec:
             r.spec = next(outs)
+        if r.impl_any is not None and r.algo in REACH_ALGOS:
+            r.reach = next(outs)
         for tag, out in (("all", r.impl_all), ("any", r.impl_any)):
             if out and "sols" in out:
                 flags = [next(outs) for _ in out["sols"]]
@@ -120,7 +128,18 @@ def tie(res, r):
         res.tie_broken(f"{r.algo}: (cost, set of solutions) under 'all'", r.case,
                        {"cost": m["cost"], "n": len(m["sols"])}, {"cost": ia["cost"], "n": len(ia["sols"])})
     if r.impl_any is not None and "err" not in r.impl_any:
-        if not set(keys(r.impl_any["sols"])) <= set(keys(m["sols"])):
+        ka = keys(r.impl_any["sols"])
+        if r.reach is not None:
+            # the ANY model: the result is ONE output reachable under ANY for some offering order, and it is
+            # empty exactly when the ALL result is (C05_any_card_*, C05_any_empty_iff_*, C05_any_reach_*);
+            # this relation holds in every cost region (also outside the coherent one)
+            if not set(ka) <= set(keys(r.reach["sols"])):
+                res.tie_broken(f"{r.algo}: 'any' solution is not reachable in the ANY model (c05_reach)", r.case,
+                               {"reach": len(r.reach["sols"])}, ka[:1])
+            elif len(ka) > 1 or (not ka) != (not m["sols"]):
+                res.tie_broken(f"{r.algo}: 'any' returns {len(ka)} solutions, model 'all' has {len(m['sols'])}",
+                               r.case)
+        elif not set(ka) <= set(keys(m["sols"])):
             res.tie_broken(f"{r.algo}: 'any' solution not in the model's 'all' set", r.case)
 
 
